@@ -98,3 +98,107 @@ def _register():
 
 
 _register()
+
+
+# ------------------------------------------------------------------ (b) building blocks of the lower bound (exp, cosh-1 links)
+# Equalities only: the value returned by k_func / _lower_bound_integrals IS the expectation of the stated surrogate for an
+# ARBITRARY positive variational parameter omega.  That the surrogates bound the true integrands pointwise (Jaakkola-Jordan
+# bound of the logistic function, its cosh analogue) is axiom G6 and is assumed, not proved; the assembly over noise units
+# (vmap) with omega from the lax.while_loop fixed point is not modelled (DESIGN §11).
+G6 = ["G6 variational bounds: log(1+e^h) <= h/2 + f(w) + f'(w)/(2w) (h^2 - w^2), sigma(h) >= exp(-f(w) - f'(w)/(2w)(h^2-w^2) + h/2), "
+      "log cosh h <= log cosh w + tanh(w)/(2w) (h^2 - w^2), sech h >= exp(-log cosh w - tanh(w)/(2w)(h^2 - w^2))", "G1 Gaussian integral",
+      "G2 Isserlis/Wick"]
+
+
+def _row(w, name):
+    """one row W_i = (w0, w) of the noise weights as the library passes it to k_func: a vector over 1 + Dx"""
+    xp = w.xp
+    w0 = w.arr(name + "0", 1)
+    wv = w.arr(name, "Dx")
+    return xp.concatenate([w0, wv], axis=0), w0, wv
+
+
+def _mk_kfunc(kind):
+    def ob(w):
+        xp = w.xp
+        obj, par = gen_hetero(w, kind, "square")
+        p_x, px = SP.gen_pdf(w, "x", "N", "Dx")
+        W_i, w0, wv = _row(w, "wi")
+        om = w.pos("om", "N")
+        val = obj.k_func(p_x, W_i, om)                                     # REAL
+        Eh = xp.einsum("i,ni->n", wv, px["mu"]) + w0
+        Eh2 = xp.einsum("i,nij,j->n", wv, px["S"], wv) + Eh ** 2
+        if kind == "exp":
+            f = xp.log(xp.cosh(om / 2.0)) + xp.log(2.0 + 0.0 * om)
+            fp = 0.5 * xp.tanh(om / 2.0)
+            spec = 0.5 * Eh + f + 0.5 * fp / om * (Eh2 - om ** 2)
+        else:
+            spec = xp.log(xp.cosh(om)) + 0.5 * xp.tanh(om) / om * (Eh2 - om ** 2)
+        w.equal("k_func=E[surrogate of log(1+link(h))]", val, spec)
+        w.equal("omega_dagger=sqrt(E[h^2])", obj._get_omega_dagger(p_x, W_i) ** 2, Eh2)
+    return ob
+
+
+def _tilted(w, px, g, wv, nu1, c1, Aq, aq, tag):
+    """mass' * E'[(Aq x + aq)^2] for the measure p_x(x) * exp(-g/2 (w'x)^2 + nu1'x + c1), batch n aligned (axiom G1);
+    the inverse / log-determinant of the tilted precision by Sherman-Morrison / the rank-one determinant lemma (ghost steps)"""
+    xp = w.xp
+    dx = w.size("Dx")
+    L1 = px["L"] + g[:, None, None] * xp.einsum("i,j->ij", wv, wv)[None]
+    Sw = xp.einsum("nij,j->ni", px["S"], wv)
+    den = 1.0 + g * xp.einsum("i,ni->n", wv, Sw)
+    S1 = px["S"] - (g / den)[:, None, None] * xp.einsum("ni,nj->nij", Sw, Sw)
+    w.ld_rule(L1, -px["ld"] + xp.log(den), "GtvLemmas.det_rank_one_update")
+    w.have_inverse(L1, S1, "Sherman-Morrison (rank-one update of the inverse)")
+    nux = xp.einsum("nij,nj->ni", px["L"], px["mu"])
+    cx = -(0.5 * xp.einsum("ni,ni->n", px["mu"], nux) + 0.5 * dx * w.log2pi() + 0.5 * px["ld"])
+
+    def moment(nu_extra, c_extra):
+        nu = nux + nu1 + nu_extra
+        c = cx + c1 + c_extra
+        S1i = w.inv(L1)
+        lnm = 0.5 * xp.einsum("ni,nij,nj->n", nu, S1i, nu) + 0.5 * dx * w.log2pi() - 0.5 * w.logdet(L1) + c
+        m = xp.einsum("nij,nj->ni", S1i, nu)
+        q = xp.einsum("ni,ni->n", Aq, m) + aq
+        return xp.exp(lnm) * (q ** 2 + xp.einsum("ni,nij,nj->n", Aq, S1i, Aq))
+    return moment
+
+
+def _mk_lb_integrals(kind):
+    def ob(w):
+        xp = w.xp
+        obj, par = gen_hetero(w, kind, "square")
+        p_x, px = SP.gen_pdf(w, "x", "N", "Dx")
+        W_i, w0, wv = _row(w, "wi")
+        a_i = w.arr("ai", "Dy")
+        y = w.arr("y", "N", "Dy")
+        om = w.pos("om", "N")
+        val = obj._lower_bound_integrals(p_x, y, W_i, a_i, om)            # REAL
+        b0 = w0[0]
+        # q(x) = a_i'(y_n - b) - a_i' M x
+        Aq = -xp.einsum("d,di->i", a_i, par["M"][0])[None] + 0.0 * px["mu"]
+        aq = xp.einsum("d,nd->n", a_i, y - par["b"])
+        if kind == "exp":
+            f = xp.log(xp.cosh(om / 2.0)) + xp.log(2.0 + 0.0 * om)
+            g = 0.5 * xp.tanh(om / 2.0) / om
+            nu1 = (-(g * b0) + 0.5)[:, None] * wv[None]
+            c1 = -f - 0.5 * g * (b0 ** 2 - om ** 2) + 0.5 * b0
+            moment = _tilted(w, px, g, wv, nu1, c1, Aq, aq, "e")
+            spec = moment(0.0 * nu1, 0.0 * c1)
+        else:
+            g = xp.tanh(om) / om
+            nu1 = -(g * b0)[:, None] * wv[None]
+            c1 = -xp.log(xp.cosh(om)) - 0.5 * g * (b0 ** 2 - om ** 2)
+            moment = _tilted(w, px, g, wv, nu1, c1, Aq, aq, "c")
+            ln2 = xp.log(2.0 + 0.0 * om)
+            spec = moment(wv[None] + 0.0 * nu1, b0 - ln2) + moment(-wv[None] + 0.0 * nu1, -b0 - ln2) - moment(0.0 * nu1, 0.0 * c1)
+        w.equal("lower_bound_integral=E[(a'(y-Mx-b))^2 * surrogate of link/(1+link)]", xp.reshape(val, (w.size("N"),)), spec)
+    return ob
+
+
+for _kind in ("exp", "coshm1"):
+    _cls = LINKS[_kind]
+    REG.ob(f"{_cls}.k_func", sorts=["N", "Dx", "Dy"], funcs=[f"approximate_conditional.{_cls}.k_func", f"approximate_conditional.{_cls}._get_omega_dagger"],
+           axioms=G6, order={("Dy", "Dy"): False})(_mk_kfunc(_kind))
+    REG.ob(f"{_cls}._lower_bound_integrals", sorts=["N", "Dx", "Dy"], funcs=[f"approximate_conditional.{_cls}._lower_bound_integrals"],
+           axioms=G6, lemmas=["GtvLemmas.det_rank_one_update"], order={("Dy", "Dy"): False})(_mk_lb_integrals(_kind))
